@@ -67,6 +67,7 @@ structure PState where
   memo2 : Std.HashMap (Nat × Nat) (Bool × Nat) := {}
   cnt : Nat := 0
   switched : Bool := false        -- ghost: a flagsSwitch macro action has run
+  leaks : List Nat := []          -- ghost: ids of sequences that failed after code had been written inside them (emit-then-fail)
   broken : Option String := none  -- the model met something it does not understand
   fuelOut : Bool := false
 
@@ -168,7 +169,10 @@ def parseNode (env : Env) : Nat → PExpr → PState → PState × Bool
   | 0, _, s => ({ s with fuelOut := true }, false)
   | fuel+1, e, s =>
     match e with
-    | .seq _ es => parseSeq env fuel es s s.pos
+    | .seq i es =>
+      let r := parseSeq env fuel es s s.pos
+      -- ghost journal: the sequence failed although code was written inside it (only the text position was restored)
+      if !r.2 && r.1.skip == 0 && r.1.trace.length > s.trace.length && r.1.leaks.length == s.leaks.length then ({ r.1 with leaks := i :: r.1.leaks }, false) else r
     | .choice _ es => parseChoice env fuel es s
     | .action _ a e' =>
       if s.skip > 0 then parseExpr env fuel e' s
